@@ -532,8 +532,12 @@ def translate(repo):
     c = vec_method(m4, r"Vec3_<T> operator%\(const Vec3_<T>& p\) const\s*\{", "Matrix4_::operator%(Vec3)", r"Vec3_<T>", 3, A)
     out.append("/-- `Matrix4_::operator%%(const Vec3_<T>& p)` (3x3 block times vector) -/\ndef modVec3 (F : Fld K) (a : Nat → Nat → K) (p : V3 K) : V3 K :=\n  V3.mk %s\n" % "\n    ".join(c))
     out.extend(rotation_def(m4))
-    out.extend(euler_defs(m4, v3))
-    files["Gen/Matrix4Gen.lean"] = (HEADER % ("include/asl/Matrix4.h", "Gen.M4")) + "\n".join(out) + "\nend Gen.M4\n"
+    # three modules, so that a change in one group of members does not invalidate the proofs about the others
+    files["Gen/Matrix4MulGen.lean"] = (HEADER % ("include/asl/Matrix4.h (operator*)", "Gen.M4")) + "\n".join(out[:2]) + "\nend Gen.M4\n"
+    hdr = HEADER.replace("import AslModel.Fld\n", "import AslModel.Fld\nimport Gen.Matrix4MulGen\n")
+    files["Gen/Matrix4Gen.lean"] = (hdr % ("include/asl/Matrix4.h", "Gen.M4")) + "\n".join(out[2:]) + "\nend Gen.M4\n"
+    files["Gen/EulerGen.lean"] = (hdr % ("include/asl/Matrix4.h (rotateX/Y/Z, rotate, rotateE, eulerAngles)", "Gen.M4")) + \
+        "\n".join(euler_defs(m4, v3)) + "\nend Gen.M4\n"
 
     # ---------------- Matrix3
     check_ctor(m3, "Matrix3_", 3, {6: 0, 7: 0, 8: 1})
